@@ -1,6 +1,7 @@
 import WfProofs.SerialLemmas
 import WfProofs.EngineIds
 import WfProofs.SerialParked
+import WfProofs.SerialOffCfg
 import WfProofs.SerialCtx
 import WfModel.GenSerialShape
 /-!
@@ -314,6 +315,59 @@ example :
       subst hx
       exact ⟨rfl, rfl⟩
     · simp [r, h0] at hx
+
+/-- what can be observed of a run that waits for external input with nothing in flight -/
+structure C12.WaitingForInput (cfg : Cfg) (r : Runner) : Prop where
+  buf : r.buf = []
+  mailbox : r.mailbox = []
+  heap : r.heap = []
+  running : r.running = []
+  idle : r.idlePending = false
+  outcome : r.outcome = none
+  steps : ∀ c ∈ cfg.steps, (r.st.workers c.name).queue = [] ∧ (r.st.workers c.name).inProg = [] ∧
+    ∀ w ∈ (r.st.workers c.name).waiters, w.req = none ∧ w.hasReq = false
+
+/-- **every pause point of every run at which the run only waits for input**: take any run — fresh, or itself
+resumed from a loaded context — under any schedule `before`; if it then waits for input with nothing in flight,
+serialise it there; under every schedule `after` the run resumed from the serialised context and the run that
+was never interrupted agree on state, outcome, workers, buffer, mailbox, clock and timers, and publish / log the
+same from the pause on.  (No name outside the workflow's steps ever gets state: `run_offCfg`.) -/
+theorem C12_pause_while_waiting_same_future (cfg : Cfg) (pol : Policy) (st0 : State) (h0 : OffCfg cfg st0) (now0 : Int)
+    (start : Option Ev) (timeout : Option Nat) (before after : List Act) :
+    let r := Runner.run cfg pol (Runner.init cfg st0 now0 start timeout) before
+    C12.WaitingForInput cfg r →
+    let live := Runner.run cfg pol r after
+    let resumed := Runner.run cfg pol (Runner.init cfg (roundtrip cfg r.st) r.now none none) after
+    live.st = resumed.st ∧ live.outcome = resumed.outcome ∧ live.running = resumed.running ∧
+    live.buf = resumed.buf ∧ live.mailbox = resumed.mailbox ∧ live.now = resumed.now ∧
+    live.idlePending = resumed.idlePending ∧
+    live.heap = resumed.heap.map (Timer.shift r.seq) ∧
+    live.stream = r.stream ++ resumed.stream ∧ live.log = r.log ++ resumed.log := by
+  intro r hw
+  have hoff : OffCfg cfg r.st := run_offCfg cfg pol before _ (init_offCfg cfg st0 now0 start timeout h0)
+  have hp : Parked cfg r := by
+    refine ⟨hw.buf, hw.mailbox, hw.heap, hw.running, hw.idle, hw.outcome, hoff, ?_, ?_⟩
+    · intro n hn
+      obtain ⟨c, hc, rfl⟩ := List.mem_map.mp ((hasStep_iff_mem cfg n).mp hn)
+      exact ⟨(hw.steps c hc).1, (hw.steps c hc).2.1⟩
+    · intro n w hwm
+      by_cases hn : cfg.hasStep n = true
+      · obtain ⟨c, hc, rfl⟩ := List.mem_map.mp ((hasStep_iff_mem cfg n).mp hn)
+        exact (hw.steps c hc).2.2 w hwm
+      · have hn' : cfg.hasStep n = false := by simpa using hn
+        rw [hoff n hn'] at hwm
+        simp at hwm
+  exact C12_parked_resume_same_future cfg pol r hp after
+
+/-- non-vacuity: the run that asked its question (`C12.waitRun`, a fresh run) waits for input in this sense, and the
+empty start state has no state outside the steps -/
+example : C12.WaitingForInput C12.waitCfg
+    (Runner.run C12.waitCfg C12.pol (Runner.init C12.waitCfg initState 0 (some { ty := 0, kind := .start, uid := 1 }) none)
+      [.drain, .workerDone 0 0 [.addWaiter 7 (some C12.askEv) none none 3], .drain, .drain]) :=
+  ⟨by decide, by decide, by decide, by decide, by decide, by decide, by decide⟩
+
+example (cfg : Cfg) : OffCfg cfg initState := offCfg_init cfg
+example (cfg : Cfg) (st : State) : OffCfg cfg (roundtrip cfg st) := offCfg_roundtrip cfg st
 
 /-! # round trips and payloads -/
 
